@@ -2,7 +2,7 @@
    hypotheses under which C03 / C04 are stated: by the C01 / C02 theorems of Proofs/CheckerTop.v.     *)
 From Coq Require Import List Arith Bool.
 From PV Require Import Base.Exn Base.Values Base.Ann Model.CheckerCfg Model.Checker Spec.Conforms
-  Proofs.CheckerGood Proofs.CheckerTop Gen.CheckerTables Model.PedanticEval.
+  Proofs.CheckerGood Proofs.CheckerTop Proofs.CheckerRaises Gen.CheckerTables Model.PedanticEval.
 Import ListNotations.
 
 Definition gcfg : CheckerCfg.checker_cfg := Gen.CheckerTables.checker_cfg.
@@ -45,4 +45,11 @@ Lemma checker1_sound : forall ctx a v tv tv', supported ctx a = true ->
 Proof.
   intros ctx a v tv tv' Hs H. apply (sound gcfg checker_good ctx (is_inst0 gcfg ctx) a v tv Hs).
   unfold checker1, assert_matches1 in H. change Gen.CheckerTables.checker_cfg with gcfg in H. now rewrite H.
+Qed.
+
+(* on its whole domain (supported or not) the modelled assert_value_matches_type returns or raises a PedanticException *)
+Lemma checker1_pedantic_only : forall ctx a v tv e, fst (checker1 ctx a v tv) = Raise e -> is_pedantic e = true.
+Proof.
+  intros ctx a v tv e H. pose proof (assert_matches1_contained gcfg ctx checker_good a v tv) as Hc.
+  unfold checker1 in H. change Gen.CheckerTables.checker_cfg with gcfg in H. now rewrite H in Hc.
 Qed.
